@@ -6,7 +6,7 @@ CONSTANTS
   Exps <- ExpUnc
   Precs = {}
   UncSigs <- USig
-  UncOffs = {0, 1, 2, 5, 8}
+  UncOffs = {0, 1, 3, 8}
   UncPrecs = {1, 2, 3}
   Units = {}
   RomanMax = 0
